@@ -69,6 +69,7 @@ type cblock struct {
 	tids   []int // block.Transactions as tx ids (executed order)
 	eids   []int
 	height uint64
+	pv     int64
 }
 
 type chainRun struct {
@@ -80,6 +81,7 @@ type chainRun struct {
 	txByH  map[common.Hash]int
 	blocks []*cblock
 	seq    int
+	results map[string]int
 }
 
 func copyBlock(b *types.Block) *types.Block {
@@ -103,17 +105,32 @@ func (c *chainRun) ancestors(h common.Hash) []*cblock { // h first
 }
 
 func (c *chainRun) newTx(nonce uint64, req uint64) int {
+	return c.newTxFrom(chFunded, nonce, req)
+}
+
+// newTxFrom: a transaction of the given account. For the account chPoor it is a JSON-RPC (ETH) transaction with a
+// nonce far ahead of the account's: jsonrpcExecutor.BeforeExecute says "not addable" and the executor puts the hash
+// on the block's evicted list instead of executing it (no receipt, dropped from block.Transactions).
+func (c *chainRun) newTxFrom(src string, nonce uint64, req uint64) int {
 	id := c.w.next
 	c.w.next++
-	tx := &types.Transaction{Source: chFunded, Target: "0x42c8c9b13fc0573d18028b3398a887c4297ff646", Type: types.TransactionTypeOperatorEvent,
+	tx := &types.Transaction{Source: src, Target: "0x42c8c9b13fc0573d18028b3398a887c4297ff646", Type: types.TransactionTypeOperatorEvent,
 		Time: "2024-04-22", Data: "c17-" + strconv.Itoa(id), Nonce: nonce, RequestId: req, ChainId: "9500"}
 	tx.Hash = tx.GenHash()
+	if src == chPoor {
+		tx.Type = types.TransactionTypeETHTX
+		tx.Nonce = nonce + 99
+		nonce = tx.Nonce
+		tx.Hash = tx.GenHash()
+	}
 	c.w.txs[id] = tx
 	c.w.ids[tx] = id
 	c.txByH[tx.Hash] = id
 	c.out.Emit(fmt.Sprintf("tx %d %s %s %d %d 0", id, hx.Hex(tx.Hash.Bytes()), hx.Hex([]byte(tx.Source)), nonce, req), "ok")
 	return id
 }
+
+const chPoor = "0x00000000000000000000000000000000000c17aa"
 
 func (c *chainRun) tags(txs []*types.Transaction) string {
 	if len(txs) == 0 {
@@ -131,7 +148,15 @@ func (c *chainRun) tags(txs []*types.Transaction) string {
 }
 
 func (c *chainRun) build(parent *cblock, qn uint64, ids []int) *cblock {
+	return c.buildPV(parent, qn, 0, ids)
+}
+
+// buildPV: pv == 0 picks a fresh prove value; otherwise the given one (ties in the fork choice)
+func (c *chainRun) buildPV(parent *cblock, qn uint64, pv int64, ids []int) *cblock {
 	c.seq++
+	if pv == 0 {
+		pv = int64(1000 + c.seq)
+	}
 	var txs []*types.Transaction
 	for _, id := range ids {
 		cp := *c.w.txs[id]
@@ -139,9 +164,9 @@ func (c *chainRun) build(parent *cblock, qn uint64, ids []int) *cblock {
 	}
 	ph := *parent.block.Header
 	h := parent.height + 1
-	blk := core.VerifC05BuildBlock(c.sdb, &ph, h, qn, big.NewInt(int64(c.seq)), chCastor, chGroup,
+	blk := core.VerifC05BuildBlock(c.sdb, &ph, h, qn, big.NewInt(pv), chCastor, chGroup,
 		chTime.Add(time.Duration(h)*time.Second+time.Duration(c.seq)*time.Millisecond), txs)
-	b := &cblock{label: "b" + strconv.Itoa(c.seq), parent: parent, block: blk, height: h}
+	b := &cblock{label: "b" + strconv.Itoa(c.seq), parent: parent, block: blk, height: h, pv: pv}
 	for _, t := range blk.Transactions {
 		b.tids = append(b.tids, c.txByH[t.Hash])
 	}
@@ -182,42 +207,17 @@ func (c *chainRun) observe() {
 	}))
 }
 
+// deliver: AddBlockOnChain(copy of the block). The op line carries only what the block itself says (hash, parent
+// hash, height, total QN, prove value, transactions, evicted list); the model decides the fork choice and makes the
+// pool calls on its own; the answer is the chain's result code, followed by the observation of the real pool.
 func (c *chainRun) deliver(b *cblock) {
-	old := core.VerifC05Head().Hash
 	cp := copyBlock(b.block)
+	hd := b.block.Header
+	op := fmt.Sprintf("deliver %s %s %d %d %d %s - %s", hx.Hex(hd.Hash.Bytes()), hx.Hex(hd.PreHash.Bytes()), hd.Height, hd.TotalQN, b.pv,
+		idList(b.tids), idList(b.eids))
 	res := hx.Guard(func() string { return strconv.Itoa(int(core.GetBlockChain().AddBlockOnChain(cp))) })
-	c.out.Emit("# deliver "+b.label+" (height "+strconv.Itoa(int(b.height))+", "+strconv.Itoa(len(b.tids))+" txs): AddBlockOnChain -> "+res, "bad-op")
-	nh := core.VerifC05Head().Hash
-	if nh != old {
-		na := map[*cblock]bool{}
-		newBranch := c.ancestors(nh)
-		for _, x := range newBranch {
-			na[x] = true
-		}
-		// removed blocks, top-down
-		for _, x := range c.ancestors(old) {
-			if na[x] {
-				break
-			}
-			c.out.Emit("unmark "+idList(x.tids)+" "+idList(x.eids), "ok")
-		}
-		oa := map[*cblock]bool{}
-		for _, x := range c.ancestors(old) {
-			oa[x] = true
-		}
-		// added blocks, bottom-up
-		var added []*cblock
-		for _, x := range newBranch {
-			if oa[x] {
-				break
-			}
-			added = append(added, x)
-		}
-		for i := len(added) - 1; i >= 0; i-- {
-			x := added[i]
-			c.out.Emit("mark "+idList(x.tids)+" "+idList(x.tids)+" "+idList(x.eids), "ok")
-		}
-	}
+	c.out.Emit(op, res)
+	c.results[res]++
 	c.observe()
 }
 
@@ -244,9 +244,10 @@ func runChain(a map[string]string, _ service.TransactionPool) {
 	w.txs = map[int]*types.Transaction{}
 	w.ids = map[*types.Transaction]int{}
 	w.next = 1
-	c := &chainRun{w: w, out: out, r: r, sdb: middleware.VerifC05BuilderStateDB(), byHash: map[common.Hash]*cblock{}, txByH: map[common.Hash]int{}}
+	c := &chainRun{w: w, out: out, r: r, sdb: middleware.VerifC05BuilderStateDB(), byHash: map[common.Hash]*cblock{}, txByH: map[common.Hash]int{}, results: map[string]int{}}
 	out.Emit("cfg 1 1 1 1 0", "ok")
 	g := core.VerifC05Head()
+	out.Emit("genesis "+hx.Hex(g.Hash.Bytes()), "ok")
 	gb := core.GetBlockChain().QueryBlockByHash(g.Hash)
 	genesis := &cblock{label: "b0", block: gb}
 	c.byHash[g.Hash] = genesis
@@ -267,7 +268,19 @@ func runChain(a map[string]string, _ service.TransactionPool) {
 			}
 			ids = append(ids, c.newTx(nextNonce+uint64(i), req))
 		}
+		// one transaction of an account without funds: evicted by the block that carries it
+		poor := c.newTxFrom(chPoor, uint64(hno), 0) // RequestId 0: the header's request ids are computed from the packed list, an evicted gate transaction would make verifiers refuse the block
 		pool := service.GetTransactionPool()
+		out.Emit("add "+strconv.Itoa(poor), hx.Guard(func() string {
+			ok, err := pool.AddTransaction(w.txs[poor])
+			if ok && err == nil {
+				return "ok"
+			}
+			if err == service.ErrExist {
+				return "exist"
+			}
+			return "err"
+		}))
 		// some are submitted to this node, the others are only ever seen inside blocks
 		for _, id := range ids {
 			if r.Chance(2, 3) {
@@ -291,7 +304,7 @@ func runChain(a map[string]string, _ service.TransactionPool) {
 		// wins with an empty heavier block — the reorg makes A's transactions pending again — and executes them
 		// itself afterwards, in another split and order.)
 		k1 := 1 + r.Intn(len(ids)-2)
-		a1 := c.build(base, 1, ids[:k1])
+		a1 := c.build(base, 1, append(append([]int{}, ids[:k1]...), poor))
 		a2 := c.build(a1, 1, ids[k1:])
 		c.deliver(a1)
 		c.deliver(a2)
@@ -333,11 +346,29 @@ func runChain(a map[string]string, _ service.TransactionPool) {
 		}
 		c2 := c.build(c1, 1, ids)
 		c.deliver(c2)
+		// fork choice without transactions: lighter fork (refused), parent unknown (parked), equal weight decided by
+		// prove value in both directions and by block hash on equal prove values
+		head := c.byHash[core.VerifC05Head().Hash]
+		if head != nil && head.parent != nil {
+			par := head.parent
+			c.deliver(c.build(par, 0, nil))                 // lighter than the head: 2
+			orphanParent := c.build(par, 0, nil)            // never delivered
+			c.deliver(c.build(orphanParent, 7, nil))        // parent unknown: 3
+			hq := head.block.Header.TotalQN - par.block.Header.TotalQN
+			c.deliver(c.buildPV(par, hq, head.pv-1, nil))   // same weight, lower prove value: wins (local not greater)
+			head = c.byHash[core.VerifC05Head().Hash]
+			if head != nil && head.parent == par {
+				c.deliver(c.buildPV(par, hq, head.pv+5, nil)) // same weight, higher prove value than local: local keeps? (decided by the code)
+				head = c.byHash[core.VerifC05Head().Hash]
+				c.deliver(c.buildPV(par, hq, head.pv, nil))   // same weight and prove value: block hash decides
+			}
+		}
 		base = c.byHash[core.VerifC05Head().Hash]
 		nextNonce += uint64(n)
 		if base == nil {
 			break
 		}
 	}
+	fmt.Printf("CHAINRES %v\n", c.results)
 	fmt.Println("STATS " + out.StatsJSON())
 }
